@@ -420,9 +420,12 @@ def check_file(route, out, expect):
             for z in sorted({0, n2 - 1, n2 // 2, min(n2 - 1, 5)}):
                 if not bits_equal(r.read_zslice(z), got[:, :, z]):
                     return f'read_zslice({z}) is not the z-slice of read_volume()'
-            t = (n0 * n1) // 2
-            if not bits_equal(r.get_trace(t), got[t // n1, t % n1]):
-                return f'get_trace({t}) is not the trace of read_volume()'
+            for t in (range(n0 * n1) if n0 * n1 <= 240 else sorted({0, n0 * n1 - 1, (n0 * n1) // 2, n1 - 1, n1})):
+                if not bits_equal(r.get_trace(t), got[t // n1, t % n1]):
+                    return f'get_trace({t}) is not the trace of read_volume()'
+            dg = r.read_correlated_diagonal(0)
+            if not bits_equal(dg, np.stack([got[k_, k_] for k_ in range(min(n0, n1))])):
+                return 'read_correlated_diagonal(0) is not the diagonal of read_volume()'
     sl = tuple(slice(0, n) for n in src.shape)
     sv = s.volume()[sl]
     if got.shape != src.shape or not bits_equal(got, sv):
